@@ -8,6 +8,7 @@ C10 - well-formed pages; source text never becomes markup.  Decides the raw-mark
   R10.6 templates parse as XML; their renderers and slots exist
   R10.7 a module's own __docformat__ wins over its package's (which parser sees the text)
   R10.8 a catch-all handler hands helpers only arguments whose every Union member the helper accepts
+  R10.9 docutils' own text-to-markup paths (math2html, URL schemes) are closed in the translator
 Trusted base: twisted.web.template flattening escapes text/attribute values; docutils' encode/attval/starttag escape.
 """
 from __future__ import annotations
@@ -352,6 +353,34 @@ def run(repo: Repo, chk: Check, thorough: bool = False) -> None:
                            f'`{gps[i + off].arg}: {norm(gps[i + off].annotation) if gps[i + off].annotation is not None else "?"}`): the handler that should contain the '
                            'failure raises itself (AttributeError), the page is not written', repo.loc(f.mod, c))
     chk.stats['handler_arguments_checked'] = n_h
+
+    # ------------------------------------------------------------------ R10.9
+    # two places where docutils itself turns docstring text into markup or script, and pydoctor's translator is the only place to stop it:
+    #  (a) math: the html4css1 default `math_output = HTML` runs math2html, which copies the arguments of \text{} / \mbox{} / \href{} unescaped;
+    #  (b) URLs: every reference (explicit, U{...}, and docutils' standalone-link recognition of plain words) becomes <a href=...> whatever its scheme
+    tr_cls = repo.cls(TRANSLATOR)
+    tinit = tr_cls.methods.get('__init__')
+    if tinit is None:
+        raise AnalysisError('R10.9: HTMLTranslator.__init__ not found')
+    math_set = [n for f_ in tr_cls.methods.values() for n in f_.walk() if isinstance(n, ast.Assign) and
+                any(isinstance(t, ast.Attribute) and t.attr == 'math_output' for t in n.targets)] + \
+               [st for st in tr_cls.node.body if isinstance(st, ast.Assign) and any(isinstance(t, ast.Name) and t.id == 'math_output' for t in st.targets)] + \
+               [n for n in tinit.walk() if isinstance(n, ast.Assign) and any(isinstance(t, ast.Attribute) and t.attr == 'math_output' for t in n.targets)]
+    okm = bool(math_set) and all(isinstance(n.value, ast.Constant) and str(n.value.value).lower().split()[0] in ('latex', 'literal', 'mathml', 'mathjax') for n in math_set)
+    chk.ob('R10.9', f'{TRANSLATOR} :: math is not converted by docutils\' unescaped HTML converter', okm,
+           f'math_output = {norm(math_set[0].value)}' if okm else
+           'math_output is left at the html4css1 default (HTML): `:math:`, `.. math::` and epytext M{...} go through math2html, which does not escape the '
+           'arguments of \\text{}, \\mbox{}, \\href{}{}: `:math:`\\text{<script>x()</script>}`` puts a real <script> element into the page', tinit.loc)
+    st_ = tr_cls.methods.get('starttag')
+    if st_ is None:
+        raise AnalysisError('R10.9: HTMLTranslator.starttag not found')
+    scheme = any(isinstance(c, ast.Constant) and isinstance(c.value, str) and 'javascript' in c.value.lower() for c in ast.walk(st_.node)) or \
+        any(isinstance(c, ast.Call) and call_name(c) in ('urlparse', 'urlsplit') for c in calls_in(st_))
+    chk.ob('R10.9', f'{TRANSLATOR}.starttag :: the scheme of an href taken from a docstring is checked', scheme,
+           'script schemes are rejected' if scheme else
+           'starttag() rewrites `#` anchors and adds target=_top but never looks at the scheme: the plain words `javascript:x()//y` in a reST docstring '
+           '(standalone-link recognition), `` `text <javascript:...>`_ `` and epytext U{javascript:...} become live <a href="javascript:...">', st_.loc)
+    chk.require('R10.9', 2)
 
 
 # ----------------------------------------------------------------------------------------------------------
